@@ -457,7 +457,7 @@ def judge_c17(mp: onnx.ModelProto, limit_s: float = 10.0) -> dict:
 # --------------------------------------------------------------------------------------------
 # the C02 judgement of one enumerated valid proto
 # --------------------------------------------------------------------------------------------
-def judge_c02(rec: dict, salt: int, used: dict | None = None) -> dict:
+def judge_c02(rec: dict, salt: int, used: dict | None = None, parts_first: bool = False) -> dict:
     """Round trip of the concretised proto, compared field by field with the concretised Norm(p)."""
     import onnx_ir as ir
 
@@ -465,7 +465,9 @@ def judge_c02(rec: dict, salt: int, used: dict | None = None) -> dict:
     irv = rec["p"]["irv"]
     mp = C.Concretizer(salt, irv, used).model(rec["e"])
     exp = C.Concretizer(salt, irv).model(rec["norm"])
-    out = {"diffs": [], "exc": ""}
+    out = {"diffs": [], "exc": "", "has_dev": any(n.device_configurations for n in mp.graph.node)}
+    if parts_first:      # (a successful whole-model call may reset what a rejected call left behind)
+        out["parts"] = parts_roundtrip(mp, exp)
     try:
         real = ir.to_proto(ir.from_proto(mp))
     except Exception as e:  # noqa: BLE001
@@ -475,7 +477,8 @@ def judge_c02(rec: dict, salt: int, used: dict | None = None) -> dict:
     ds = K.diff(K.canon(exp), K.canon(real))
     out["diffs"] = [list(map(str, d)) for d in ds]
     # standalone entry points on the parts of this proto
-    out["parts"] = parts_roundtrip(mp, exp)
+    if not parts_first:
+        out["parts"] = parts_roundtrip(mp, exp)
     return out
 
 
@@ -629,6 +632,53 @@ def salt_of(p: dict, seed: int) -> int:
     return (seed + zlib.crc32(json.dumps(p, sort_keys=True).encode())) & 0x7FFFFFFF
 
 
+def failing_calls(order=(8, 10, 12)) -> int:
+    """Serde calls that are rejected half-way (the property holds for every call whatever came before it - calls that
+    FAILED included): a model whose serialization raises at a node, for IR versions below and above the
+    device-configuration gate; a lazy tensor whose loader raises; protos whose deserialization raises in the middle of
+    a graph (invalid UTF-8 in a later node, a node output declared twice).  Returns the number of calls that raised."""
+    import numpy as np
+    import onnx_ir as ir
+
+    raised = 0
+
+    def boom():
+        raise RuntimeError("vf: tensor cannot be materialised")
+
+    for irv in order:
+        x = ir.Value(name="x", type=ir.TensorType(ir.DataType.FLOAT), shape=ir.Shape([1]))
+        n1 = ir.Node("", "Relu", [x], num_outputs=1, name="ok")
+        n2 = ir.Node("", "Bad", [n1.outputs[0]], [ir.Attr("a", ir.AttributeType.UNDEFINED, None)], num_outputs=1, name="bad")
+        g = ir.Graph([x], [n2.outputs[0]], nodes=[n1, n2], name="g", opset_imports={"": 20})
+        try:
+            ir.to_proto(ir.Model(g, ir_version=irv))
+        except Exception:  # noqa: BLE001
+            raised += 1
+        lz = ir.LazyTensor(boom, dtype=ir.DataType.FLOAT, shape=ir.Shape([2]), name="w")
+        w = ir.Value(name="w", const_value=lz)
+        g2 = ir.Graph([], [], nodes=[], initializers=[w], name="g2", opset_imports={"": 20})
+        try:
+            ir.to_proto(ir.Model(g2, ir_version=irv))
+        except Exception:  # noqa: BLE001
+            raised += 1
+    h = onnx.helper
+    bad_utf8 = h.make_node("Op", ["t"], ["u"], name="n2")
+    a = bad_utf8.attribute.add()
+    a.name, a.type = "s", onnx.AttributeProto.STRINGS
+    a.strings.extend([b"ok", b"\xff\xfe"])
+    sub = h.make_graph([h.make_node("Relu", ["x"], ["inner"])], "body", [], [h.make_tensor_value_info("inner", 1, [1])])
+    first = h.make_node("Wrap", ["x"], ["t"], name="n1", body=sub)
+    for nodes in ([first, bad_utf8], [first, h.make_node("Op", ["x"], ["t"], name="dup")]):
+        gp = h.make_graph(nodes, "broken", [h.make_tensor_value_info("x", 1, [1])], [h.make_tensor_value_info("t", 1, [1])])
+        mpb = h.make_model(gp)
+        mpb.ir_version = 9
+        try:
+            ir.from_proto(mpb)
+        except Exception:  # noqa: BLE001
+            raised += 1
+    return raised
+
+
 def work_c02(args):
     lines, base, seed = args
     quiet()
@@ -652,6 +702,20 @@ def work_c02(args):
             out["explicit_mismatch"] += 1
         salt = salt_of(r["p"], seed)
         j = judge_c02(r, salt, out["used"])
+        if i % 40 == 0 or (j["has_dev"] and i % 4 == 0):
+            # the same round trips once more after rejected calls: nothing they left behind may show
+            out["failing_calls"] = out.get("failing_calls", 0) + failing_calls((8, 10, 12) if (i // 4) % 2 else (12, 10, 8))
+            j2 = judge_c02(r, salt, None, parts_first=True)
+            out["history_cases"] = out.get("history_cases", 0) + 1
+            if (j2["exc"], j2["diffs"], j2.get("parts")) != (j["exc"], j["diffs"], j.get("parts")):
+                later = {(d[0], d[1]) for d in j2["diffs"]} | {(d[1] if len(d) > 1 else "?", d[2] if len(d) > 2 else "?") for d in j2.get("parts", [])}
+                first = {(d[0], d[1]) for d in j["diffs"]} | {(d[1] if len(d) > 1 else "?", d[2] if len(d) > 2 else "?") for d in j.get("parts", [])}
+                what = sorted(later ^ first)[:1] or [("result", "changed")]
+                sig = f"C02:after-rejected-calls:{what[0][0]}:{what[0][1]}"
+                if sig not in out["viol"]:
+                    out["viol"][sig] = {"kind": "history", "p": r["p"], "salt": salt, "count": 0, "strict": True, "entry_points": ["after rejected calls"],
+                                        "what": f"the round trip of this proto gives another result after rejected serde calls: {j2['exc'] or j2['diffs'][:2] or j2.get('parts', [])[:2]}"}
+                out["viol"][sig]["count"] += 1
         feats = feature_key(r["p"])
         out["features"].add(feats)
         for act in builder_actions(r["p"]):
